@@ -115,12 +115,13 @@ func condAtoms(f *ssa.Function, o exprOpts) []string {
 	})
 	var res []string
 	for s := range out {
-		if s != "true" && s != "false" {
-			res = append(res, s)
+		for _, e := range expandAlts(s) {
+			if e != "true" && e != "false" {
+				res = append(res, e)
+			}
 		}
 	}
-	sort.Strings(res)
-	return res
+	return uniqSorted(res)
 }
 
 // visitWithHelpers calls fn for every instruction of f and, recursively, of
